@@ -217,22 +217,26 @@ def sumP {κ} (l : List (κ × Int)) : Int := (l.map (·.2)).sum
 def saveAll (b : List ((Nat × Nat) × Int)) (d : List ((Nat × Nat) × Int)) : List ((Nat × Nat) × Int) :=
   b.foldl (fun acc x => aset x.1 x.2 acc) d
 
+/-- `Keeper.Vote` after the previous vote (if any) has been revoked: power from staking, minimum
+    check, distribution / endorsement update, save vote, blacklist, save the breakdown -/
+def State.castVote (s1 : State) (a : Nat) (ws : List GP) : Except Err State :=
+  let b := s1.breakdown a
+  let total := sumP b
+  if total < s1.minVP then .error .lowPower else
+  let s2 := s1.applyUpdate (applyWeights total ws)
+  .ok { s2 with votes := aset a ⟨total, ws⟩ s2.votes,
+                blacklist := if s2.blacklist.contains a then s2.blacklist else a :: s2.blacklist,
+                dvp := saveAll b s2.dvp }
+
 /-- `MsgServer.Vote` → `Keeper.Vote` -/
 def State.vote (s : State) (a : Nat) (ws : List GP) : Except Err State :=
   if !validWeights ws then .error .badWeights else
   match validateWeights s ws with
   | some e => .error e
   | none =>
-    let s1 := match s.vote? a with
-      | some v => s.revokeVote a v
-      | none => s
-    let b := s1.breakdown a
-    let total := sumP b
-    if total < s1.minVP then .error .lowPower else
-    let s2 := s1.applyUpdate (applyWeights total ws)
-    .ok { s2 with votes := aset a ⟨total, ws⟩ s2.votes,
-                  blacklist := if s2.blacklist.contains a then s2.blacklist else a :: s2.blacklist,
-                  dvp := saveAll b s2.dvp }
+    match s.vote? a with
+    | some v => (s.revokeVote a v).castVote a ws
+    | none => s.castVote a ws
 
 /-- `MsgServer.RevokeVote` -/
 def State.revoke (s : State) (a : Nat) : Except Err State :=
@@ -272,9 +276,14 @@ def State.hooks (s : State) (a : Nat) : List (Nat × Option Int) → Except Err 
     | .error e => .error e
     | .ok s1 => s1.hooks a hs
 
+/-- the staking-table update a fact stands for (`none` = delegation removed) -/
+def upd (t : List ((Nat × Nat) × Int)) (k : Nat × Nat) : Option Int → List ((Nat × Nat) × Int)
+  | some p => aset k p t
+  | none => aerase k t
+
 def setStk (stk : List ((Nat × Nat) × Int)) : List ((Nat × Nat) × Option Int) → List ((Nat × Nat) × Int)
   | [] => stk
-  | x :: xs => setStk (match x.2 with | some p => aset x.1 p stk | none => aerase x.1 stk) xs
+  | x :: xs => setStk (upd stk x.1 x.2) xs
 
 def State.staking (s : State) (a : Nat) (hs : List (Nat × Option Int)) (fin : List ((Nat × Nat) × Option Int)) : Except Err State :=
   match s.hooks a hs with
@@ -286,6 +295,27 @@ def State.slash (s : State) (fin : List ((Nat × Nat) × Option Int)) : State :=
   { s with stk := setStk s.stk fin }
 
 /-! ### claim: keeper/endorsements.go + x/incentives/keeper/gauge_endorsement.go -/
+
+/-- the claimer is blacklisted for the rest of the epoch (`BlacklistClaim`) -/
+def State.blacklisted (s : State) (a : Nat) : State := { s with blacklist := a :: s.blacklist }
+
+/-- `DistributeEndorsementRewards` succeeded: coins leave the module account, the gauge's
+    `DistributedCoins` grows; then the claimer is blacklisted -/
+def State.paid (s : State) (a : Nat) (g : Gauge) (amt : Int) : State :=
+  { s with gauges := s.gauges.map (fun x => if x.id = g.id then { g with distributed := g.distributed + amt } else x),
+           incBal := s.incBal - amt, blacklist := a :: s.blacklist }
+
+/-- the reward computation of `EstimateClaim` and the payment: `power · epochRewards / epochShares`
+    (big.Int.Quo), one reward denom -/
+def State.pay (s : State) (a : Nat) (g : Gauge) (e : Endorsement) (power : Int) : Except Err (State × Int) :=
+  match g.epochRewards with
+  | none => .ok (s.blacklisted a, 0)     -- no reward coins: nothing is sent, blacklisted all the same
+  | some er =>
+    if e.epoch = 0 then .error .panic else      -- big.Int.Quo by zero
+    -- SendCoinsFromModuleToAccount: invalid (non-positive) coin or insufficient funds
+    if (power * er).tdiv e.epoch ≤ 0 then .error .payFailed else
+    if s.incBal < (power * er).tdiv e.epoch then .error .payFailed else
+    .ok (s.paid a g ((power * er).tdiv e.epoch), (power * er).tdiv e.epoch)
 
 /-- `Claim`; returns the new state and the amount paid -/
 def State.claim (s : State) (a : Nat) (gid : Nat) : Except Err (State × Int) :=
@@ -304,20 +334,7 @@ def State.claim (s : State) (a : Nat) (gid : Nat) : Except Err (State × Int) :=
         match s.vote? a with
         | none => .error .noVote
         | some v =>
-          let power := v.gaugePower e.gaugeId
-          if power = 0 then .error .noPower else
-          match g.epochRewards with
-          | none =>
-            -- no reward coins: nothing is sent, the claimer is blacklisted all the same
-            .ok ({ s with blacklist := a :: s.blacklist }, 0)
-          | some er =>
-            if e.epoch = 0 then .error .panic else      -- big.Int.Quo by zero
-            let amt := (power * er).tdiv e.epoch
-            -- SendCoinsFromModuleToAccount: invalid (non-positive) coin or insufficient funds
-            if amt ≤ 0 then .error .payFailed else
-            if s.incBal < amt then .error .payFailed else
-            let s1 := s.setGauge { g with distributed := g.distributed + amt }
-            .ok ({ s1 with incBal := s1.incBal - amt, blacklist := a :: s1.blacklist }, amt)
+          if v.gaugePower e.gaugeId = 0 then .error .noPower else s.pay a g e (v.gaugePower e.gaugeId)
 
 /-! ### epoch end -/
 
@@ -355,13 +372,16 @@ def State.incentivesEpochEnd (s : State) : State :=
 def State.epochEnd (s : State) (distr : Bool) : State :=
   (if distr then s.incentivesEpochEnd else s).sponsEpochEnd
 
+def State.funded (s : State) (g : Gauge) (amt : Int) : State :=
+  { s with gauges := s.gauges.map (fun x => if x.id = g.id then { g with coins := g.coins + amt } else x),
+           incBal := s.incBal + amt }
+
 /-- `AddToGaugeRewards` on an endorsement gauge (funder's balance is checked by the caller) -/
 def State.fund (s : State) (gid : Nat) (amt : Int) : Except Err State :=
   match s.gauge? gid with
   | none => .error .noGauge
   | some g =>
-    if !g.perpetual && decide (g.numEpochs ≤ g.filled) then .error .finishedGauge else
-    .ok { (s.setGauge { g with coins := g.coins + amt }) with incBal := s.incBal + amt }
+    if !g.perpetual && decide (g.numEpochs ≤ g.filled) then .error .finishedGauge else .ok (s.funded g amt)
 
 /-! ### ops -/
 
